@@ -195,7 +195,7 @@ class ModelSystem(System):
             ops.append((('add_attacker_prefilled', sorted(c.r_assets)[-1], 'split'), 1))
             if self.invalid_ops:
                 for a in self._stale_assets(c)[-1:]:
-                    if hasattr(c.assets[a], 'id') and hasattr(c.assets[a], 'name'):
+                    if _has_id_and_name(c.assets[a]):
                         ops.append((('add_attacker_prefilled', a), 1))
         if self.invalid_ops:
             gone = [g for g in range(len(c.attackers)) if g not in c.r_attackers and getattr(c.attackers[g], 'id', None) is not None]
@@ -218,7 +218,7 @@ class ModelSystem(System):
             # know the model, so the call is accepted; later failing calls must not strip it
             for h in sorted(c.r_attackers)[:1]:
                 for a in self._stale_assets(c)[-1:]:
-                    if hasattr(c.assets[a], 'id') and hasattr(c.assets[a], 'name'):
+                    if _has_id_and_name(c.assets[a]):
                         s0 = self.ep_steps[0]
                         present = s0 in c.r_attackers[h]['eps'].get(a, [])
                         ops.append((('add_entry_point', h, a, s0) if not present else ('remove_entry_point', h, a, s0), 1))
@@ -808,6 +808,14 @@ class ModelSystem(System):
                 if not eps[a]:
                     del eps[a]
         return MUST_SUCCEED, thunk, commit, 'present' if present else 'absent'
+
+
+def _has_id_and_name(obj):
+    """an asset object that was given an id and a name at some point (one whose add_asset was rejected has neither)"""
+    try:
+        return obj.id is not None and int(obj.id) == int(obj.id) and obj.name is not None
+    except Exception:  # noqa: BLE001
+        return False
 
 
 def _s(x):
